@@ -2,6 +2,7 @@
 from __future__ import annotations
 
 import ast
+import re
 from typing import Dict, List, Optional
 
 from .. import preserve as P
@@ -50,7 +51,10 @@ def plumbing(prog: Program, res: Result, rule: str, options=("preserve",)) -> No
                     continue
                 a = elt.elts[i]
                 if opt == "preserve":
-                    ok = P.derived_from(ff, a, "used_names") or P.derived_from(ff, a, "preserve")
+                    def _is_used_names_call(n):
+                        r = prog.resolve_call(n.func, ff.mod, ff) if isinstance(n, ast.Call) else None
+                        return bool(r and r[0] == "fn" and r[1].name.startswith("_used_names_in_file"))
+                    ok = P.derived_from(ff, a, _is_used_names_call) or P.derived_from(ff, a, "preserve")
                     src = "the names used by the preserved files"
                 else:
                     ok = P.derived_from(ff, a, opt)
@@ -205,7 +209,8 @@ def _producer(prog: Program, res: Result) -> None:
                         ok = False
                 else:
                     # negative condition: must be false for every attribute node anyway
-                    if "isinstance(node, ast.Name)" not in t.split(" or ")[0] or " or " in t:
+                    subj = norm(h.args[0].value)
+                    if f"isinstance({subj}, ast.Name)" not in t.split(" or ")[0] or " or " in t:
                         ok = False
             child = a
             a = parent(a)
@@ -229,14 +234,17 @@ def _producer(prog: Program, res: Result) -> None:
                     a = parent(a)
                 src = " ".join(norm(l.iter) for l in walk_own(fn.node) if isinstance(l, ast.For) and n in list(ast.walk(l)))
                 src += " " + " ".join(norm(g.iter) for g in ast.walk(arg) if isinstance(g, ast.comprehension))
-                if ("ImportFrom" in src or ".names" in src) and not any(" in " in c and "imported" in c for c in conds):
+                if ("ImportFrom" in src or ".names" in src) and not any(re.search(r"\\b(not )?in\\b", c) for c in conds):
                     orig = True
     res.decide(orig, "R8.3", fn.loc(), fn.fq, "names taken by from-import",
                "the original name (alias.name) of every from-import alias of a preserved file is recorded" if orig else
                "only names that the preserved file USES, under the name it BINDS, are recorded: `from lib import helper as h` preserves `h` instead of `helper`, "
                "and an import that is only re-exported preserves nothing - the import in the preserved file then fails")
     ff = prog.func("main", "format_files")
-    comp = [n for n in walk_own(ff.node) if isinstance(n, ast.DictComp) and "used_names" in norm(n)]
+    def _is_used_names_call(n):
+        r = prog.resolve_call(n.func, ff.mod, ff) if isinstance(n, ast.Call) else None
+        return bool(r and r[0] == "fn" and r[1].name.startswith("_used_names_in_file"))
+    comp = [n for n in walk_own(ff.node) if isinstance(n, ast.DictComp) and P.derived_from(ff, n.value, _is_used_names_call)]
     ok = False
     if comp:
         t = norm(comp[0].value)
